@@ -406,6 +406,7 @@ func shortSchema(s string) string {
 
 // C19: logical date / timestamp types, both directions.
 func driveC19(c *driverCtx) error {
+	driveC19Files(c)
 	timeSpec := fieldSpecs(false)[14]
 	if timeSpec.class != "time" {
 		panic("harness: fieldSpecs order changed")
@@ -566,6 +567,40 @@ func driveC19(c *driverCtx) error {
 		}
 	}
 	return nil
+}
+
+// driveC19Files: the same stored integers in FILES whose schemas differ in nothing but the logical type, read one
+// after the other into one Go type (whatever ReadFile remembers from one file to the next, the logical type of the
+// file at hand decides what its integers mean)
+func driveC19Files(c *driverCtx) {
+	type T struct {
+		T time.Time `json:"t"`
+		Z int64     `json:"z"`
+	}
+	typ := reflect.TypeOf(T{})
+	stored := []int64{0, 1, 86400000, 1700000000123, 1700000000123456, -5, 19000}
+	order := []string{sMicros, sMillis, `"long"`, sMillis, sMicros, `"long"`, sMicros}
+	for round, sch := range order {
+		sj := `{"type":"record","name":"T","fields":[{"name":"t","type":` + sch + `},{"name":"z","type":"long"}]}`
+		sn, err := schemaNodeFromJSON([]byte(sj))
+		if err != nil {
+			continue
+		}
+		var raw []byte
+		recs := make([]any, len(stored))
+		for k, st := range stored {
+			b := appendVar(appendVar(nil, st), int64(k))
+			recs[k] = byteList(b)
+			raw = append(raw, b...)
+		}
+		codec := codecs3[round%3]
+		file := buildContainer([]byte(sj), codec, true, []byte("0123456789abcdef"), [][2]any{{len(stored), raw}})
+		r := readBack(typ, file, readerKinds[round%len(readerKinds)], round%2 == 0, -1, nil)
+		c.rec.NewCase()
+		c.rec.Emit(fmt.Sprintf("C19|files|%s|round%d", shortSchema(sch), round), map[string]any{
+			"op": "rand_read", "mode": "C03", "schema": sn, "records": recs, "target": projectType(typ), "codec": codec,
+			"delivered": orEmpty(r.delivered), "recheck": orEmpty(r.recheck), "err": errString(r.err), "panic": r.panicked})
+	}
 }
 
 func magClass(v int64) string {
